@@ -214,9 +214,17 @@ def run_split(mods, data, sr, sw, ch, durs, flags, container="bytes", spelling=N
         always_false = (lambda w: False)
         put("validator", "val", rec.custom_validator(val_kind), always_false)
     else:
-        # energy validator built by split() itself: intercepted from outside by rebinding the name in auditok.core
-        patched = core.AudioEnergyValidator
-        core.AudioEnergyValidator = rec.logging_energy_validator_class()
+        # energy validator built by split() itself: intercepted from outside by wrapping the class's is_valid (independent of
+        # how core.py imports the class)
+        Base = util.AudioEnergyValidator
+        patched = Base.is_valid
+        _ev, _bps = rec.ev, rec.bps
+
+        def logged_is_valid(self_, d_):
+            v_ = bool(patched(self_, d_))
+            _ev.append({"e": "W", "v": v_, "n": len(d_) // _bps})
+            return v_
+        Base.is_valid = logged_is_valid
         put("energy_threshold", "eth", (extra or {}).get("eth", ETH), 95)
         if extra and "use_channel" in extra:
             put("use_channel", "uc", extra["use_channel"], extra.get("use_channel_wrong"))
@@ -249,7 +257,7 @@ def run_split(mods, data, sr, sw, ch, durs, flags, container="bytes", spelling=N
             ev.append({"e": "ERR", "cls": type(exc).__name__})
     finally:
         if patched is not None:
-            core.AudioEnergyValidator = patched
+            util.AudioEnergyValidator.is_valid = patched
         for c in cleanup:
             c()
     return ev
